@@ -169,3 +169,21 @@ pub fn pow_plan<T: Subj>(tier: Tier) -> Plan<T> {
     };
     Plan::new(label, &a, &b, &[]).with_aux(Aux::Exp, sets::exponents(bits, tier))
 }
+
+/// C04 / C17 plan: panics cost microseconds, so beyond 8 bits the pairs come from reduced
+/// boundary sets; FULL^2 at 8 bits.
+pub fn panic_plan<T: Subj>(tier: Tier) -> Plan<T> {
+    let (w, n, bits) = (T::DIGIT_BITS, T::N, T::BITS);
+    let (label, a) = if bits == 8 {
+        ("FULL^2", sets::full(8))
+    } else {
+        let mut a = sets::structured_small(w, n, tier);
+        a.extend(sets::smalls(T::bytes()));
+        a.extend(root_values(bits, T::SIGNED).into_iter().take(12));
+        ("GRID(small)^2", sets::dedup(a))
+    };
+    Plan::new(label, &a, &a, &[])
+        .with_aux(Aux::Shift, sets::shift_amounts(bits, w, Tier::Quick))
+        .with_aux(Aux::Exp, sets::exponents(bits, Tier::Quick))
+        .with_typed_shifts()
+}
